@@ -2,7 +2,7 @@
 import numpy as np
 
 from . import _rfa as R
-from .. import gen, tol
+from .. import callform, gen, tol
 from ..core import fp_watch
 from ..models import search as S
 
@@ -122,7 +122,7 @@ def run_case(ctx, kind_, idx):
                 wv = wv0 if wv0 is not None else Weaver(x.copy(), y.copy())
                 n = int(rng.choice([2, 3, 5, 10, 100, 500, int(rng.integers(2, 501))]))
                 info["n"] = n
-                wv.interpolate(n) if method == "linear" and rng.integers(0, 2) else wv.interpolate(n=n, method=method)
+                wv.interpolate(n) if method == "linear" and rng.integers(0, 2) else callform.call(rng, wv.interpolate, "Weaver.interpolate", [], {"n": n, "method": method})
                 gx, gy = wv.get()
                 ctx.judged()
                 ctx.monitor("c13:weaver_grid")
@@ -145,7 +145,7 @@ def run_case(ctx, kind_, idx):
                     new_x = np.concatenate([[x[0]], inner, [x[-1]]])
                     wv = wv0 if wv0 is not None else Weaver(x.copy(), y.copy())
                     arg = [new_x, [float(v) for v in new_x], gen.as_container(rng, new_x, allow=("series",))[0]][int(rng.integers(0, 3))]
-                    wv.interpolate(new_x=arg, method=method)
+                    callform.call(rng, wv.interpolate, "Weaver.interpolate", [], {"new_x": arg, "method": method})
                     gx, got = wv.get()
                     ctx.monitor("c13:weaver_grid")
                     if not (isinstance(gx, np.ndarray) and np.array_equal(gx, new_x)):
@@ -171,10 +171,11 @@ def run_case(ctx, kind_, idx):
                         if rng.integers(0, 2) and isinstance(garg, np.ndarray) and garg.dtype.kind == "f":
                             garg = np.sort(np.append(garg, [x[0], x[0] - abs(rng.normal(0, 1)) - 1e-9]))
                             new_x = np.asarray(garg, dtype=float)
-                        got = interpolate(xin, yin, garg, method=method, left=left_value)
+                        got = callform.call(rng, interpolate, "process.interpolate", [xin, yin, garg],
+                                            {"method": method, "left": left_value})
                     else:
                         got = interpolate(xin, yin, garg) if method == "linear" and rng.integers(0, 2) else \
-                            interpolate(xin, yin, garg, method=method)
+                            callform.call(rng, interpolate, "process.interpolate", [xin, yin, garg], {"method": method})
                 ctx.judged()
             mag = float(np.max(np.abs(y))) or 1.0
             gaps = np.diff(x)
